@@ -19,6 +19,7 @@ import CnvVerif.Driver.CoverageExt
 import CnvVerif.Driver.Effects
 import CnvVerif.Driver.Bins
 import CnvVerif.Driver.Vcf
+import CnvVerif.Driver.VcfExt
 import CnvVerif.Driver.Descriptives
 import CnvVerif.Driver.Haar
 import CnvVerif.Driver.Stats
@@ -26,7 +27,7 @@ import CnvVerif.Driver.StatsGlue
 open Lean CnvVerif.Drv
 
 def handlers : List (String → Json → Option Json → R (Option Json)) :=
-  [handleInterval, handleCall, handleCallCmd, handleSegFilter, handleSegFilterExt, handleTile, handleCenter, handleFix, handleAccess, Genes.handleGenes, handleFormats, handleFormatsExt, handleExport, handleExportExt, Reference.handleReference, handleCoverage, handleCoverageExt, handleEffects, handleBins, handleVcf, handleDescriptives, Haar.handleHaar, handleStats, handleStatsGlue]
+  [handleInterval, handleCall, handleCallCmd, handleSegFilter, handleSegFilterExt, handleTile, handleCenter, handleFix, handleAccess, Genes.handleGenes, handleFormats, handleFormatsExt, handleExport, handleExportExt, Reference.handleReference, handleCoverage, handleCoverageExt, handleEffects, handleBins, handleVcf, handleVcfExt, handleDescriptives, Haar.handleHaar, handleStats, handleStatsGlue]
 
 def dispatch (op : String) (inp : Json) (impl : Option Json) : R Json := do
   for h in handlers do
